@@ -315,7 +315,7 @@ func checkCurrent13(s *source, srcDef map[string]any, out []byte, route string, 
 				}
 				va := evalTemplate(ctxNew, a)
 				if va != vb {
-					add("template-value-changed:"+name, fmt.Sprintf("template %q evaluated to %q (with @webhook bound as at %s)\nmigrated to %q which evaluates to %q", before, vb, s.Version, a, va))
+					add("template-value-changed:"+positionClass(s)+":"+name, fmt.Sprintf("template %q evaluated to %q (with @webhook bound as at %s)\nmigrated to %q which evaluates to %q", before, vb, s.Version, a, va))
 				} else if strings.Contains(vb, "bar") {
 					st.fact("template_value_from_webhook_preserved")
 				}
@@ -334,21 +334,17 @@ func loadClass(s *source) string {
 	if s.Family != "names" {
 		return positionClass(s)
 	}
-	d := strings.SplitN(s.Desc, " ", 2)
-	member, form := d[0], ""
-	if len(d) > 1 {
-		form = d[1]
-	}
+	member := strings.SplitN(s.Desc, " ", 2)[0]
 	if strings.HasSuffix(member, ".result_name") && !strings.HasPrefix(member, "switch.") && !strings.HasPrefix(member, "random.") {
 		member = "action.result_name"
-	}
-	if strings.Contains(form, "all-space") {
-		return "names:" + member + ":all-space"
 	}
 	return "names:" + member
 }
 
 func positionClass(s *source) string {
+	if s.Family == "language" || s.Family == "graph" || s.Family == "current" {
+		return s.Family
+	}
 	d := s.Desc
 	if i := strings.Index(d, " <- "); i >= 0 {
 		d = d[:i]
@@ -742,7 +738,7 @@ func init() {
 			"every template position of every action and router type x 30 @webhook templates (none rebinding webhook as a lambda parameter) x translations x templating shapes, every action / router / wait / hint type, flow languages x localisation keys, result and category names around the 64 / 36 limits (ASCII, multi-byte, all-space), " +
 			"all canonical flow graphs of <= 2 (thorough: 3) nodes over the structural node alphabet, each at each of 13.0 ... 13.5, definitions already current (three formattings); legacy definitions: every ruleset_type (subflow, webhook, resthook, form_field, flow_field, contact_field, expression, group, random, airtime incl. two countries sharing currency and amount, every wait_*), every rule test type, every action type, rules of one category sharing a destination, " +
 			"entry listed after other nodes, header forms, and all canonical legacy graphs of <= 3 (thorough: 4) nodes x every entry x layout. " +
-			"(ii) fault enumeration on definition JSON: for each seed (every legacy rule set and action source, one rich definition per 13.x version) every JSON path x every replacement from a fixed list (delete, null, true, 0, -1, 1.5, \"\", \"x\", \"@(\", [], {}, [null], {\"uuid\":1}, [[]], duplicate of the previous UUID, every other value of the member's type enumeration), every byte-prefix truncation raw and with the open brackets closed, and (thorough) all pairs of faults on the legacy seeds. " +
+			"(ii) fault enumeration on definition JSON: for each seed (every legacy rule set and action source, one rich definition per 13.x version) every JSON path x every replacement from a fixed list (delete, null, true, 0, -1, 1.5, \"\", \"x\", \"@(\", [], {}, [null], {\"uuid\":1}, [[]], duplicate of the previous UUID, every other value of the member's type enumeration), every byte-prefix truncation raw and with the open brackets closed, and (thorough) all pairs of faults from {delete, null, \"\", {}} on the legacy rule set seeds. " +
 			"A case is distinct by its bytes; distinct_nontrivial counts valid sources plus faulted inputs that are well-formed JSON.",
 		Assumptions: []string{
 			"validity at an old version is taken from the shapes the repository's own migration test data and template catalogs (specdata/templates.json) show for that version; result names use the character set the current validator accepts (the statement speaks of over-long names only)",
